@@ -500,7 +500,7 @@ def incomplete_test(ctx, R3, dv):
                                     cst = ca - cb
                                     fields, rest_ok, nbody = {}, True, 0
                                     for k_, v_ in tot.items():
-                                        m_ = re.fullmatch(r"len\((\w+)\[(\d+)\]\)", k_)
+                                        m_ = re.fullmatch(r"len\((\w+)\[(-?\d+)\]\)", k_)
                                         if m_ and v_ == 1:
                                             fields[int(m_.group(2))] = fields.get(int(m_.group(2)), 0) + 1
                                         elif m_:
